@@ -784,3 +784,885 @@ def ilog_grammar_bounded(tier, seed):
         ob2['replay'] = dict(kind='custom', reproduced=True, native=bad2, input=bad2)
     obs.append(ob2)
     return obs, {}
+
+
+# =================================================================== C15 trace buffers
+TR = IO + "trace."
+
+
+def mk_stream_at(S, name="s"):
+    return mk_stream(S, name)
+
+
+class HeaderRead(Unit):
+    prop = "C15"
+    name = "TraceBufferHeader.read"
+    target = TR + "TraceBufferHeader.read"
+    contracts = DS_CONTRACTS
+
+    def inputs(self, S):
+        h = S.obj(TR + "TraceBufferHeader", ver=None, hdr_len=None, time_flg=None, endian_flg=None, comp=None, size=None,
+                  times_wrap=None, next_free=None)
+        return dict(self=h, stream=mk_stream(S))
+
+    def pre(self, S, inp):
+        return ds_invariant(inp['stream'])
+
+    def check(self, P, inp, old, out):
+        P.prove(out.returned, "returns (never raises)")
+        if not out.returned:
+            return
+        s, h = inp['stream'], inp['self']
+        d, o, size = old['stream'].data, old['stream'].index, old['stream'].size
+        if not truth_now(P, out.value):
+            P.prove(Not(o + 32 <= size), "False only when fewer than 32 bytes remain")
+            P.prove(Eq(field(s, 'index'), o), "cursor unchanged when no header can be read")
+            return
+        P.prove(o + 32 <= size, "True only when 32 header bytes are present")
+        P.prove(Eq(field(s, 'index'), o + 32), "cursor advanced by the 32-byte header")
+        for nm, off, n in (('ver', 0, 1), ('hdr_len', 1, 1), ('time_flg', 2, 1), ('endian_flg', 3, 1), ('size', 20, 4),
+                           ('times_wrap', 24, 4), ('next_free', 28, 4)):
+            P.prove(Eq(field(h, nm), be(d, o + off, n)), "header.%s == the %d byte(s) at offset %d" % (nm, n, off))
+        P.prove(Eq(field(h, 'comp'), spec_comp(d, o + 4)), "header.comp == the 12 name bytes as text without NUL/space padding")
+
+
+def truth_now(P, v):
+    """value of a bool result on this path (forks when undetermined)"""
+    return branch(truth(v))
+
+
+def spec_comp(d, o):
+    if isinstance(d, (bytes, bytearray, memoryview)):
+        return str(bytes(d[o:o + 12]), encoding='ascii', errors='ignore').rstrip('\0').rstrip(' ')
+    ctx = cur()
+    if branch(is_ascii(d, o, 12)):
+        t = ascii_text(d, o, 12)
+    else:
+        t = _ops.bytes_decode(ctx, view(d, o, 12), 'ascii', 'ignore')
+    return strip(strip(t, '\0', 'r'), ' ', 'r')
+
+
+def entry_layout(d, o, size):
+    """(ok, length, end) of a trace entry at offset o: 16 fixed bytes, data (<=1024), pad to 4, 4-byte total size"""
+    length = be(d, o + 4, 2)
+    pad = If(mod(length, 4) == 0, 0, 4 - mod(length, 4)) if is_z3(length) else ((4 - length % 4) % 4)
+    end = o + 16 + length + pad + 4
+    fixed = o + 16 <= size
+    if is_z3(fixed) or is_z3(end):
+        ok = And(fixed, length <= 1024, end <= size, Eq(be(d, end - 4, 4), end - o))
+    else:
+        ok = bool(fixed and length <= 1024 and end <= size and be(d, end - 4, 4) == end - o)
+    return ok, length, end
+
+
+class EntryRead(Unit):
+    prop = "C15"
+    name = "TraceEntry.read"
+    target = TR + "TraceEntry.read"
+    contracts = DS_CONTRACTS
+
+    def inputs(self, S):
+        e = S.obj(TR + "TraceEntry", tbh=None, tbl=None, length=None, tag=None, hash_value=None, line=None, data=None)
+        return dict(self=e, stream=mk_stream(S))
+
+    def pre(self, S, inp):
+        return ds_invariant(inp['stream'])
+
+    def check(self, P, inp, old, out):
+        P.prove(out.returned, "returns (never raises)")
+        if not out.returned:
+            return
+        s, e = inp['stream'], inp['self']
+        d, o, size = old['stream'].data, old['stream'].index, old['stream'].size
+        ok, length, end = entry_layout(d, o, size)
+        P.prove(Iff(truth(out.value), ok),
+                "True iff the entry is complete: 16 fixed bytes, <=1024 data bytes, pad to 4, trailing size word == actual size")
+        if truth_now(P, out.value):
+            P.prove(Eq(field(s, 'index'), end), "cursor at the end of the entry")
+            for nm, off, n in (('tbh', 0, 2), ('tbl', 2, 2), ('length', 4, 2), ('tag', 6, 2), ('hash_value', 8, 4), ('line', 12, 4)):
+                P.prove(Eq(field(e, nm), be(d, o + off, n)), "entry.%s == the %d bytes at offset %d" % (nm, n, off))
+            P.prove(Eq(blen(field(e, 'data')), length), "entry.data has exactly `length` bytes")
+            if P.symbolic and isinstance(field(e, 'data'), SBytes):
+                P.prove(same_view(field(e, 'data'), view(d, o + 16, length)), "entry.data == the bytes after the fixed fields")
+            elif not P.symbolic:
+                P.prove(bytes(field(e, 'data')) == bytes(d[o + 16:o + 16 + length]), "entry.data == the bytes after the fixed fields")
+        P.prove(And(field(s, 'index') >= o, field(s, 'index') <= size), "cursor stays within the input")
+
+
+class GetArgs(Unit):
+    prop = "C15"
+    name = "TraceEntry.get_args"
+    target = TR + "TraceEntry.get_args"
+    contracts = DS_CONTRACTS
+
+    def inputs(self, S):
+        e = S.obj(TR + "TraceEntry", tag=S.int("tag", 0, 0xFFFF), data=S.bytes("edata", kind='memoryview'))
+        return dict(self=e)
+
+    def check(self, P, inp, old, out):
+        P.prove(out.returned, "returns")
+        if not out.returned:
+            return
+        e = inp['self']
+        d = field(e, 'data')
+        got = tuple(out.value)
+        if branch(Eq(field(e, 'tag'), 0x4644)):
+            P.prove(len(got) == 0, "binary entries have no arguments")
+            return
+        n = blen(d)
+        k = len(got)
+        P.prove(And(k <= 5, 4 * k <= n, Or(k == 5, 4 * (k + 1) > n)), "min(5, len // 4) arguments")
+        for j in range(k):
+            P.prove(Eq(got[j], be(d, 4 * j, 4)), "argument %d == big-endian word %d of the data" % (j, j))
+
+
+class TSUnit(Unit):
+    prop = "C15"
+
+    def mk(self, S):
+        return S.obj(TR + "TraceString", hash_value=S.int("h", 0, 0xFFFFFFFF), message_format=S.opaque_str("format"),
+                     location=S.opaque_str("loc"))
+
+
+class IsMatch(TSUnit):
+    name = "TraceString.is_match/is_partial_match"
+    target = TR + "TraceString.is_partial_match"
+
+    def inputs(self, S):
+        return dict(self=self.mk(S), hash_value=S.int("hash", 0, 0xFFFFFFFF))
+
+    def call(self, it, inp):
+        ci = lookup_qualname(TR + "TraceString")
+        a = it.call(BoundMethod(inp['self'], ci.find_method('is_match')), [inp['hash_value']])
+        b = it.call(BoundMethod(inp['self'], ci.find_method('is_partial_match')), [inp['hash_value']])
+        return (a, b)
+
+    def call_native(self, inp):
+        return (inp['self'].is_match(inp['hash_value']), inp['self'].is_partial_match(inp['hash_value']))
+
+    def check(self, P, inp, old, out):
+        P.prove(out.returned, "returns")
+        if out.returned:
+            h, x = field(inp['self'], 'hash_value'), inp['hash_value']
+            P.prove(Iff(truth(out.value[0]), Eq(h, x)), "exact match iff the hashes are equal")
+            P.prove(Iff(truth(out.value[1]), And(Not(Eq(h, x)), Eq(mod(h, 100000), mod(x, 100000)))),
+                    "partial match iff hashes differ but agree modulo 100000")
+
+
+def spec_pct(fmt_, args):
+    """format % args, or the bare format when formatting raises"""
+    if isinstance(fmt_, str):
+        try:
+            return fmt_ % tuple(args)
+        except Exception:
+            return fmt_
+    ok, res, et, em = _ops.format_terms(cur(), 'pct', fmt_, tuple(args))
+    return mkstr([Opq(res)]) if branch(ok) else fmt_
+
+
+class TSGetMessage(TSUnit):
+    name = "TraceString.get_message"
+    target = TR + "TraceString.get_message"
+
+    def inputs(self, S):
+        k = S.choice("nargs", [0, 1, 5])
+        return dict(self=self.mk(S), args=tuple(S.int("a%d" % j, 0, 0xFFFFFFFF) for j in range(k)))
+
+    def check(self, P, inp, old, out):
+        P.prove(out.returned, "returns for every format/argument mismatch")
+        if out.returned:
+            P.prove(Eq(out.value, spec_pct(field(inp['self'], 'message_format'), inp['args'])),
+                    "message == format % args, or the bare format when that raises")
+
+
+# ---- exact / last-partial string lookup
+def tsf_env():
+    n = z3.Int('ts_n')
+    h = z3.Function('ts_hash', z3.IntSort(), z3.IntSort())
+    return n, h
+
+
+def mk_trace_strings(ctx):
+    n, h = tsf_env()
+    ctx.assume(n >= 0)
+    ci = lookup_qualname(TR + "TraceString")
+
+    def elem(j):
+        j = simp(zint(j))
+        return Obj(ci, dict(idx=j, hash_value=h(j), message_format=mkstr([Opq(ufun('ts_fmt', z3.IntSort(), PyStr)(j))]),
+                            location=mkstr([Opq(ufun('ts_loc', z3.IntSort(), PyStr)(j))])))
+    return LazySeq(n, elem, 'trace_strings')
+
+
+def ts_exact(k, x):
+    n, h = tsf_env()
+    return h(k) == x
+
+
+def ts_partial(k, x):
+    n, h = tsf_env()
+    return z3.And(h(k) != x, h(k) % 100000 == x % 100000)
+
+
+class GetTraceStringInv(LoopInv):
+    func = TR + "TraceStringFile.get_trace_string"
+    loop = 0
+    modifies_locals = ('trace_string', 'partial_match')
+
+    def pm(self, fr):
+        v = fr.locals['partial_match']
+        return I(-1) if v is None else zint(field(v, 'idx'))
+
+    def havoc(self, it, fr, i):
+        ctx = it.ctx
+        pm = ctx.fresh('pm', 'int')
+        ctx.assume(pm >= -1)
+        if ctx.decide(pm == -1):
+            fr.locals['partial_match'] = None
+        else:
+            seq = field(fr.locals['self'], 'trace_strings')
+            fr.locals['partial_match'] = seq.elem(pm)
+
+    def inv(self, it, fr, i):
+        x = zint(fr.locals['hash_value'])
+        pm = self.pm(fr)
+        k = z3.Int('k!gts')
+        i = zint(i)
+        return z3.And(
+            z3.ForAll([k], z3.Implies(z3.And(k >= 0, k < i), z3.Not(ts_exact(k, x)))),
+            z3.Implies(pm == -1, z3.ForAll([k], z3.Implies(z3.And(k >= 0, k < i), z3.Not(ts_partial(k, x))))),
+            z3.Implies(pm >= 0, z3.And(pm < i, ts_partial(pm, x),
+                                       z3.ForAll([k], z3.Implies(z3.And(k > pm, k < i), z3.Not(ts_partial(k, x)))))))
+
+
+class GetTraceString(Unit):
+    prop = "C15"
+    name = "TraceStringFile.get_trace_string"
+    target = TR + "TraceStringFile.get_trace_string"
+    invariants = [GetTraceStringInv]
+
+    def inputs(self, S):
+        if S.symbolic:
+            f = S.obj(TR + "TraceStringFile", string_file_path="sf", trace_strings=mk_trace_strings(S.ctx))
+            return dict(self=f, hash_value=S.int("hash", 0, 0xFFFFFFFF))
+        from io_drawer.trace import TraceStringFile, TraceString
+        f = object.__new__(TraceStringFile)
+        x = S.int("hash", 0, 0xFFFFFFFF)
+        k = S.int("nstr", 0, 6)
+        f.trace_strings = []
+        for j in range(k):
+            kind = S.int("kind%d" % j, 0, 3)
+            hv = x if kind == 0 else (x + 100000 * S.int("d%d" % j, 1, 40)) % (1 << 32) if kind in (1, 2) else (x ^ 0x5A5A)
+            f.trace_strings.append(TraceString(hv, "m%d" % j, "loc%d" % j))
+        f.string_file_path = "sf"
+        return dict(self=f, hash_value=x)
+
+    def check(self, P, inp, old, out):
+        P.prove(out.returned, "returns")
+        if not out.returned:
+            return
+        x = inp['hash_value']
+        if not P.symbolic:
+            ss = inp['self'].trace_strings
+            exact = [s for s in ss if s.hash_value == x]
+            part = [s for s in ss if s.hash_value != x and s.hash_value % 100000 == x % 100000]
+            want = exact[0] if exact else (part[-1] if part else None)
+            P.prove(out.value is want, "first exact match, else the last partial match, else None")
+            return
+        n, h = tsf_env()
+        k = z3.Int('k!gtsp')
+        x = zint(x)
+        if out.value is None:
+            P.prove(z3.ForAll([k], z3.Implies(z3.And(k >= 0, k < n), z3.And(z3.Not(ts_exact(k, x)), z3.Not(ts_partial(k, x))))),
+                    "None only if no string matches exactly or partially")
+            return
+        j = zint(field(out.value, 'idx'))
+        P.prove(z3.And(j >= 0, j < n), "the returned string is in the file")
+        if branch(ts_exact(j, x)):
+            P.prove(z3.ForAll([k], z3.Implies(z3.And(k >= 0, k < j), z3.Not(ts_exact(k, x)))), "first string with the same hash")
+        else:
+            P.prove(ts_partial(j, x), "otherwise a partial match (hash agrees modulo 100000)")
+            P.prove(z3.ForAll([k], z3.Implies(z3.And(k >= 0, k < n), z3.Not(ts_exact(k, x)))), "returned only when no exact match exists")
+            P.prove(z3.ForAll([k], z3.Implies(z3.And(k > j, k < n), z3.Not(ts_partial(k, x)))), "it is the last partial match")
+
+
+TRACE_UNITS = [HeaderRead, EntryRead, GetArgs, IsMatch, TSGetMessage, GetTraceString]
+UNITS = HLOG_UNITS + ILOG_UNITS + TRACE_UNITS
+
+
+DS_Q = "pel.datastream.DataStream"
+
+
+def gen_trace_buffer(rng):
+    """structured random trace buffer: header + well-formed entries, declared size near an entry boundary or
+    inside an entry, optional corruption / truncation (bounded companion input generator)"""
+    ents = b''
+    bounds = [32]
+    for _ in range(rng.randrange(0, 5)):
+        ln = rng.choice([0, 1, 3, 4, 5, 8, 20, 21, rng.randrange(0, 40)])
+        pad = (4 - ln % 4) % 4
+        tag = rng.choice([0x4654, 0x4644, 0x1234])
+        e = (rng.randrange(65536).to_bytes(2, 'big') + rng.randrange(65536).to_bytes(2, 'big') + ln.to_bytes(2, 'big') +
+             tag.to_bytes(2, 'big') + rng.getrandbits(32).to_bytes(4, 'big') + rng.randrange(100000).to_bytes(4, 'big') +
+             bytes(rng.randrange(256) for _ in range(ln)) + bytes(pad))
+        e += (len(e) + 4).to_bytes(4, 'big')
+        ents += e
+        bounds.append(32 + len(ents))
+    total = 32 + len(ents)
+    k = rng.random()
+    if k < 0.3:
+        size = total
+    elif k < 0.6:
+        size = max(0, rng.choice(bounds) + rng.randrange(-20, 20))
+    else:
+        size = rng.randrange(0, total + 40)
+    hdr = bytes([2, 0x20, 1, 0x42]) + rng.choice([b'IICS', b'POWR', b'INFO']).ljust(12, rng.choice([b'\0', b' '])) + bytes(4) + \
+        size.to_bytes(4, 'big') + rng.randrange(9).to_bytes(4, 'big') + bytes(4)
+    data = bytearray(hdr + ents)
+    r = rng.random()
+    if r < 0.2 and len(data) > 33:
+        data[rng.randrange(32, len(data))] ^= 1 << rng.randrange(8)
+    elif r < 0.4:
+        data = data[:rng.randrange(0, len(data) + 1)]
+    return bytes(data)
+
+
+# ---- TraceBuffer.read: entries up to the declared size / first malformed entry
+def tr_fns(ctx):
+    if not hasattr(ctx, 'tr_fns'):
+        ctx.tr_fns = (RecFn('tr_pos', z3.IntSort()), RecFn('tr_entries', Val), z3.Function('tr_ok', z3.IntSort(), z3.BoolSort()))
+    return ctx.tr_fns
+
+
+def v_entry(pos):
+    return ufun('v_trace_entry', z3.IntSort(), Val)(zint(pos))
+
+
+class CHeaderRead(Contract):
+    target = TR + "TraceBufferHeader.read"
+
+    def model(self, it, h, stream):
+        ctx = it.ctx
+        d, o, size = field(stream, 'data'), field(stream, 'index'), field(stream, 'size')
+        if not ctx.decide(zint(o) + 32 <= zint(size)):
+            return False
+        h.ver, h.hdr_len, h.time_flg, h.endian_flg = be(d, o, 1), be(d, o + 1, 1), be(d, o + 2, 1), be(d, o + 3, 1)
+        h.size, h.times_wrap, h.next_free = be(d, o + 20, 4), be(d, o + 24, 4), be(d, o + 28, 4)
+        h.comp = mkstr([Opq(ufun('spec_comp', Val, z3.IntSort(), PyStr)(val_term(d), zint(o) + 4))])
+        stream.index = simp(zint(o) + 32)
+        return True
+
+
+class CEntryRead(Contract):
+    target = TR + "TraceEntry.read"
+
+    def model(self, it, e, stream):
+        ctx = it.ctx
+        d, o, size = field(stream, 'data'), field(stream, 'index'), field(stream, 'size')
+        ok, length, end = entry_layout(d, o, size)
+        if not ctx.decide(ok):
+            c = ctx.fresh('cursor_after_bad_entry', 'int')
+            ctx.assume(z3.And(c >= zint(o), c <= zint(size)))
+            stream.index = c
+            return False
+        e.tbh, e.tbl, e.length, e.tag = be(d, o, 2), be(d, o + 2, 2), length, be(d, o + 6, 2)
+        e.hash_value, e.line = be(d, o + 8, 4), be(d, o + 12, 4)
+        e.data = view(d, o + 16, length)
+        e._term = v_entry(o)
+        e._pos = o
+        stream.index = simp(end)
+        return True
+
+
+class BufferReadInv(LoopInv):
+    func = TR + "TraceBuffer.read"
+    loop = 0
+    modifies_locals = ('entry',)
+
+    def K(self, ctx):
+        return ctx.ghost.setdefault('tr_K', 0)
+
+    def heap_targets(self, it, fr):
+        b = fr.locals['self']
+        return [field(b, 'entries'), (fr.locals['stream'], 'index')]
+
+    def base(self, it, fr):
+        ctx = it.ctx
+        if not ctx.ghost.get('tr_base'):
+            ctx.ghost['tr_base'] = True
+            Pos, EL, OK = tr_fns(ctx)
+            Pos.define_base(ctx, zint(field(fr.locals['stream'], 'index')))
+            EL.define_base(ctx, v_nil())
+
+    def havoc(self, it, fr, i):
+        ctx = it.ctx
+        self.base(it, fr)
+        Pos, EL, OK = tr_fns(ctx)
+        K = ctx.fresh('tr_k', 'int')
+        ctx.assume(K >= 0)
+        ctx.ghost['tr_K'] = K
+        fr.locals['stream'].index = Pos.at(K)
+        field(fr.locals['self'], 'entries')[:] = [Chunk(ctx.fresh('tr_entries_so_far', Val))]
+
+    def inv(self, it, fr, i):
+        ctx = it.ctx
+        self.base(it, fr)
+        Pos, EL, OK = tr_fns(ctx)
+        K = zint(self.K(ctx))
+        s = fr.locals['stream']
+        hsize = zint(field(field(fr.locals['self'], 'header'), 'size'))
+        k = z3.Int('k!tbr')
+        return z3.And(zint(field(s, 'index')) == Pos.at(K), list_term(field(fr.locals['self'], 'entries')) == EL.at(K),
+                      zint(field(s, 'index')) >= 0, zint(field(s, 'index')) <= zint(field(s, 'size')),
+                      z3.ForAll([k], z3.Implies(z3.And(k >= 0, k < K), z3.And(OK(k), Pos.at(k) < hsize))))
+
+    def unfold(self, it, fr, i):
+        ctx = it.ctx
+        Pos, EL, OK = tr_fns(ctx)
+        K = self.K(ctx)
+        s = fr.locals['stream']
+        d, size = field(s, 'data'), field(s, 'size')
+        ok, length, end = entry_layout(d, Pos.at(K), size)
+        ctx.assume(OK(zint(K)) == zbool_(ok))
+        Pos.unfold(ctx, K, lambda prev, k: zint(end))
+        EL.unfold(ctx, K, lambda prev, k: v_snoc(prev, v_entry(Pos.at(K))))
+        ctx.ghost['tr_K'] = simp(zint(K) + 1)
+
+
+def zbool_(x):
+    return z3.BoolVal(x) if isinstance(x, bool) else x
+
+
+class BufferRead(Unit):
+    prop = "C15"
+    name = "TraceBuffer.read"
+    target = TR + "TraceBuffer.read"
+    contracts = DS_CONTRACTS + [CHeaderRead, CEntryRead]
+    invariants = [BufferReadInv]
+
+    def inputs(self, S):
+        b = S.obj(TR + "TraceBuffer", header=None, entries=[])
+        if hasattr(S, 'rng'):
+            data = gen_trace_buffer(S.rng)
+            S.log['s_data'] = data.hex()
+            S.log['s_index'] = 0
+            return dict(self=b, stream=S.obj(DS_Q, data=data, size=len(data), index=0, byte_order='big', is_signed=False))
+        return dict(self=b, stream=mk_stream(S))
+
+    def pre(self, S, inp):
+        return ds_invariant(inp['stream'])
+
+    def check(self, P, inp, old, out):
+        P.prove(out.returned, "returns (never raises)")
+        if not out.returned:
+            return
+        d, o, size = old['stream'].data, old['stream'].index, old['stream'].size
+        b = inp['self']
+        if not P.symbolic:
+            want = spec_entries_native(d, o, size)
+            P.prove(bool(out.value) == (want is not None), "True iff a 32-byte header is present")
+            if want is not None:
+                got = [(e.tbh, e.tbl, e.length, e.tag, e.hash_value, e.line, bytes(e.data)) for e in b.entries]
+                P.prove(got == want, "entries == every well-formed entry up to the declared size / first malformed entry")
+            return
+        ctx = P.ctx
+        if not truth_now(P, out.value):
+            P.prove(Not(o + 32 <= size), "False only when no 32-byte header is present")
+            return
+        P.prove(o + 32 <= size, "True only when a 32-byte header is present")
+        Pos, EL, OK = tr_fns(ctx)
+        inv = list(ctx.invariants.values())[0]
+        m = zint(inv.K(ctx))
+        hsize = be(d, o + 20, 4)
+        P.prove(list_term(field(b, 'entries')) == EL.at(m), "entries == the entries at positions Pos(0..m-1), in order")
+        k = z3.Int('k!tbrp')
+        P.prove(z3.ForAll([k], z3.Implies(z3.And(k >= 0, k < m), z3.And(OK(k), Pos.at(k) < hsize))),
+                "every listed entry is well formed and starts before the declared buffer size")
+        ok_m, _, _ = entry_layout(d, Pos.at(m), size)
+        P.prove(Or(Not(Pos.at(m) < hsize), Not(ok_m)), "reading stops only at the declared size or at the first malformed entry")
+        P.prove(Pos.at(0) == o + 32, "the first entry starts right after the header")
+
+
+def spec_entries_native(d, o, size):
+    d = bytes(d)
+    if o + 32 > size:
+        return None
+    hsize = be(d, o + 20, 4)
+    pos = o + 32
+    out = []
+    while pos < hsize:
+        ok, length, end = entry_layout(d, pos, size)
+        if not ok:
+            break
+        out.append((be(d, pos, 2), be(d, pos + 2, 2), length, be(d, pos + 6, 2), be(d, pos + 8, 4), be(d, pos + 12, 4),
+                    d[pos + 16:pos + 16 + length]))
+        pos = end
+    return out
+
+
+# ---- _format_trace_entry
+INDENT = '                    '
+
+
+class CGetTraceString(Contract):
+    target = TR + "TraceStringFile.get_trace_string"
+
+    def model(self, it, f, hash_value):
+        ctx = it.ctx
+        j = ufun('ts_lookup', z3.IntSort(), z3.IntSort())(zint(hash_value))
+        ctx.assume(j >= -1)
+        if ctx.decide(j == -1):
+            return None
+        n, h = tsf_env()
+        # the lookup contract (proved in GetTraceString): exact, or partial
+        ctx.assume(z3.Or(h(j) == zint(hash_value), ts_partial(j, zint(hash_value))))
+        return mk_trace_strings(ctx).elem(j)
+
+
+class IndentInv(LoopInv):
+    func = TR + "_format_trace_entry"
+    loop = 0
+    modifies_locals = ('dump_line',)
+
+    def fn(self, ctx):
+        if not hasattr(ctx, 'ind_fn'):
+            ctx.ind_fn = RecFn('indented_lines', Val)
+        return ctx.ind_fn
+
+    def heap_targets(self, it, fr):
+        return [fr.locals['lines']]
+
+    def base(self, it, fr):
+        ctx = it.ctx
+        if not ctx.ghost.get('ind_base'):
+            ctx.ghost['ind_base'] = True
+            self.fn(ctx).define_base(ctx, list_term(list(fr.locals['lines'])))
+
+    def havoc(self, it, fr, i):
+        self.base(it, fr)
+        fr.locals['lines'][:] = [Chunk(it.ctx.fresh('lines_so_far', Val))]
+
+    def inv(self, it, fr, i):
+        self.base(it, fr)
+        return list_term(fr.locals['lines']) == self.fn(it.ctx).at(i)
+
+    def unfold(self, it, fr, i):
+        from pyvc.seq import seq_str_at
+        ctx = it.ctx
+        hd = spec_hexdump_term(field(fr.locals['entry'], 'data'))
+        line = val_term(cat(INDENT, mkstr([Opq(seq_str_at(hd, i))])))
+        self.fn(ctx).unfold(ctx, i, lambda prev, k: v_snoc(prev, line))
+
+
+class FormatEntry(Unit):
+    prop = "C15"
+    name = "_format_trace_entry"
+    target = TR + "_format_trace_entry"
+    contracts = DS_CONTRACTS + [CHexdump, CGetTraceString, CFormatTimestamp]
+    invariants = [IndentInv]
+
+    def inputs(self, S):
+        e = S.obj(TR + "TraceEntry", tbh=S.int("tbh", 0, 0xFFFF), tbl=S.int("tbl", 0, 0xFFFF), length=None,
+                  tag=S.int("tag", 0, 0xFFFF), hash_value=S.int("hash", 0, 0xFFFFFFFF), line=S.int("line", 0, 0xFFFFFFFF),
+                  data=S.bytes("edata", kind='memoryview'))
+        if S.symbolic:
+            sf = S.obj(TR + "TraceStringFile", string_file_path="sf")
+        else:
+            from io_drawer.trace import TraceStringFile, TraceString
+            sf = object.__new__(TraceStringFile)
+            x = e.hash_value
+            kind = S.int("sfkind", 0, 3)
+            sf.trace_strings = [] if kind == 0 else [TraceString(x if kind == 1 else (x + 300000) % (1 << 32),
+                                                                 S.choice("fmt", ["val %d and %x", "plain", "%s %d %d %d %d %d %d", "%c"]), "file.cpp(12)")]
+        return dict(entry=e, string_file=sf, lines=[])
+
+    def pre(self, S, inp):
+        return blen(field(inp['entry'], 'data')) <= 1024
+
+    def check(self, P, inp, old, out):
+        P.prove(out.returned, "returns for every entry")
+        if not out.returned:
+            return
+        e = inp['entry']
+        lines = inp['lines']
+        tbh, tbl, line, hv, tag, data = (field(e, k) for k in ('tbh', 'tbl', 'line', 'hash_value', 'tag', 'data'))
+        if not P.symbolic:
+            P.prove(list(lines) == spec_format_entry_native(e, inp['string_file']),
+                    "entry lines == timestamp/seq/line/message [+ partial-match warning] [+ indented hex dump of the data]")
+            return
+        ctx = P.ctx
+        j = ufun('ts_lookup', z3.IntSort(), z3.IntSort())(zint(hv))
+        n, h = tsf_env()
+        head = []
+        if branch(j == -1):
+            message = cat('No trace string found with hash value ', fmt(hv, 'd'))
+            partial = False
+            none = True
+        else:
+            none = False
+            ts = mk_trace_strings(ctx).elem(j)
+            binary = branch(Eq(tag, 0x4644))
+            args = () if binary else spec_args(data)
+            message = spec_pct(field(ts, 'message_format'), args)
+            partial = branch(ts_partial(j, zint(hv)))
+        head.append(cat(spec_ts(tbh), ' ', fmt(tbl, 'X', 4, '0'), ' ', fmt(line, 'd', 5, ' '), ' ', message))
+        if partial:
+            head.append(cat(INDENT, 'Warning: Partial match with trace string from ', field(mk_trace_strings(ctx).elem(j), 'location')))
+        dump = none or partial or branch(Eq(tag, 0x4644))
+        if not dump:
+            P.prove(Eq(lines, head), "entry lines == first line [+ warning]; no hex dump for a plain exact match")
+            return
+        inv = [v for v in ctx.invariants.values() if isinstance(v, IndentInv)][0]
+        hd = spec_hexdump_term(data)
+        from pyvc.seq import seq_len
+        P.prove(list_term(lines) == inv.fn(ctx).at(seq_len(hd)),
+                "entry lines == first line [+ warning] + every hex-dump line of the data, indented, in order")
+        P.prove(inv.fn(ctx).at(0) == list_term(head), "the lines before the dump are the first line [+ warning]")
+
+
+def spec_args(data):
+    n = blen(data)
+    out = []
+    for j in range(5):
+        if branch(4 * (j + 1) <= n):
+            out.append(be(data, 4 * j, 4))
+        else:
+            break
+    return tuple(out)
+
+
+def spec_format_entry_native(e, sf):
+    from pel.hexdump import hexdump
+    x = e.hash_value
+    exact = [s for s in sf.trace_strings if s.hash_value == x]
+    part = [s for s in sf.trace_strings if s.hash_value != x and s.hash_value % 100000 == x % 100000]
+    ts = exact[0] if exact else (part[-1] if part else None)
+    binary = e.tag == 0x4644
+    data = bytes(e.data)
+    if ts is None:
+        message = 'No trace string found with hash value %d' % x
+    else:
+        message = spec_pct(ts.message_format, () if binary else spec_args(data))
+    out = ["%s %04X %5d %s" % (spec_ts(e.tbh, reveal=True), e.tbl, e.line, message)]
+    partial = ts is not None and not exact
+    if partial:
+        out.append(INDENT + 'Warning: Partial match with trace string from ' + ts.location)
+    if binary or ts is None or partial:
+        out.extend(INDENT + l for l in hexdump(memoryview(data)))
+    return out
+
+
+TRACE_UNITS = [HeaderRead, EntryRead, GetArgs, IsMatch, TSGetMessage, GetTraceString, BufferRead, FormatEntry]
+UNITS = HLOG_UNITS + ILOG_UNITS + TRACE_UNITS
+
+
+# ---- parse_trace_data
+def v_entry_lines(pos):
+    """opaque: the lines _format_trace_entry produces for the entry at `pos` (defined in the FormatEntry unit)"""
+    return ufun('spec_trace_entry_lines', z3.IntSort(), Val)(zint(pos))
+
+
+class CTraceStringFile(Contract):
+    """assumed (file grammar bounded-only): the trace strings of the file, arbitrary but fixed"""
+    target = TR + "TraceStringFile"
+
+    def model(self, it, path):
+        o = Obj(lookup_qualname(TR + "TraceStringFile"), dict(string_file_path=path))
+        it.ctx.new_ids.add(id(o))
+        return o
+
+
+class CBufferRead(Contract):
+    """TraceBuffer.read as proved above: header fields from the bytes; entries = Pos(0..m-1)"""
+    target = TR + "TraceBuffer.read"
+
+    def model(self, it, b, stream):
+        ctx = it.ctx
+        d, o, size = field(stream, 'data'), field(stream, 'index'), field(stream, 'size')
+        if not ctx.decide(zint(o) + 32 <= zint(size)):
+            return False
+        h = Obj(lookup_qualname(TR + "TraceBufferHeader"), {})
+        CHeaderRead().model(it, h, stream)
+        b.header = h
+        m = z3.Int('tr_count')
+        ctx.assume(m >= 0)
+        pos = z3.Function('tr_pos', z3.IntSort(), z3.IntSort())
+        ci = lookup_qualname(TR + "TraceEntry")
+
+        def elem(j):
+            j = simp(zint(j))
+            return Obj(ci, dict(_pos=pos(j), _term=v_entry(pos(j))))
+        b.entries = LazySeq(m, elem, 'trace_entries')
+        c = ctx.fresh('cursor_after_buffer', 'int')
+        ctx.assume(z3.And(c >= 0, c <= zint(size)))
+        stream.index = c
+        return True
+
+
+class CFormatEntry(Contract):
+    target = TR + "_format_trace_entry"
+
+    def model(self, it, entry, string_file, lines):
+        it.note_write(lines, None, "lines")
+        lines.append(Chunk(v_entry_lines(field(entry, '_pos'))))
+        return None
+
+
+class TraceLinesInv(LoopInv):
+    func = TR + "parse_trace_data"
+    loop = 0
+    modifies_locals = ('entry',)
+
+    def fn(self, ctx):
+        if not hasattr(ctx, 'tl_fn'):
+            ctx.tl_fn = RecFn('trace_lines', Val)
+        return ctx.tl_fn
+
+    def heap_targets(self, it, fr):
+        return [fr.locals['lines']]
+
+    def base(self, it, fr):
+        ctx = it.ctx
+        if not ctx.ghost.get('tl_base'):
+            ctx.ghost['tl_base'] = True
+            ctx.ghost['tl_head'] = list(fr.locals['lines'])
+            self.fn(ctx).define_base(ctx, list_term(list(fr.locals['lines'])))
+
+    def havoc(self, it, fr, i):
+        self.base(it, fr)
+        fr.locals['lines'][:] = [Chunk(it.ctx.fresh('tlines_so_far', Val))]
+
+    def inv(self, it, fr, i):
+        self.base(it, fr)
+        return list_term(fr.locals['lines']) == self.fn(it.ctx).at(i)
+
+    def unfold(self, it, fr, i):
+        from pyvc.seq import v_cat
+        ctx = it.ctx
+        pos = z3.Function('tr_pos', z3.IntSort(), z3.IntSort())
+        self.fn(ctx).unfold(ctx, i, lambda prev, k: v_cat(prev, v_entry_lines(pos(zint(i)))))
+
+
+class ParseTrace(Unit):
+    prop = "C15"
+    name = "parse_trace_data"
+    target = TR + "parse_trace_data"
+    contracts = DS_CONTRACTS + [CHexdump, CTraceStringFile, CBufferRead, CFormatEntry]
+    invariants = [TraceLinesInv]
+
+    def inputs(self, S):
+        if S.symbolic:
+            path = "strings"
+        else:
+            import io_drawer, os
+            path = os.path.join(os.path.dirname(io_drawer.__file__), S.choice("sf", ["mexStringFile", "nimitzStringFile"]))
+        if hasattr(S, 'rng'):
+            data = gen_trace_buffer(S.rng)
+            S.log['data'] = data.hex()
+            return dict(data=memoryview(data), string_file_path=path)
+        return dict(data=S.bytes("data", kind='memoryview'), string_file_path=path)
+
+    def check(self, P, inp, old, out):
+        P.prove(out.returned, "returns for every input")
+        if not out.returned:
+            return
+        d = inp['data']
+        if not P.symbolic:
+            P.prove(list(out.value) == spec_trace_native(d, inp['string_file_path']),
+                    "output == header lines + the lines of every entry in order; or the notice + lossless hex dump")
+            return
+        ctx = P.ctx
+        n = blen(d)
+        if branch(Not(32 <= n)):
+            P.prove(Eq(out.value, ['Unable to parse trace data.', Chunk(spec_hexdump_term(d))]),
+                    "no header: notice followed by the hex dump of the whole input")
+            return
+        inv = [v for v in ctx.invariants.values() if isinstance(v, TraceLinesInv)][0]
+        m = z3.Int('tr_count')
+        P.prove(list_term(out.value) == inv.fn(ctx).at(m), "output == header lines followed by the lines of entries 0..m-1 in order")
+        comp = mkstr([Opq(ufun('spec_comp', Val, z3.IntSort(), PyStr)(val_term(field_data(d)), I(4)))])
+        head = [cat('Component: ', comp), cat('Version: ', fmt(be(d, 0, 1), 'd')), cat('Size: ', fmt(be(d, 20, 4), 'd')),
+                cat('Times Wrapped: ', fmt(be(d, 24, 4), 'd')), '', 'HH:MM:SS Seq  Line  Entry Data', '-------- ---- ----- ----------']
+        P.prove(Eq(ctx.ghost.get('tl_head'), head), "header lines name component, version, size and wrap count from the header bytes")
+
+
+def field_data(d):
+    return d
+
+
+def spec_trace_native(data, path):
+    from pel.hexdump import hexdump
+    from io_drawer.trace import TraceStringFile
+    data = bytes(data)
+    if path not in _TABLE_CACHE:
+        _TABLE_CACHE[path] = TraceStringFile(path)
+    sf = _TABLE_CACHE[path]
+    ents = spec_entries_native(data, 0, len(data))
+    if ents is None:
+        return ['Unable to parse trace data.'] + hexdump(memoryview(data))
+    lines = ['Component: ' + spec_comp(data, 4), 'Version: %d' % data[0], 'Size: %d' % be(data, 20, 4),
+             'Times Wrapped: %d' % be(data, 24, 4), '', 'HH:MM:SS Seq  Line  Entry Data', '-------- ---- ----- ----------']
+
+    class E:
+        pass
+    for (tbh, tbl, length, tag, hv, line, dat) in ents:
+        e = E()
+        e.tbh, e.tbl, e.tag, e.hash_value, e.line, e.data = tbh, tbl, tag, hv, line, dat
+        lines.extend(spec_format_entry_native(e, sf))
+    return lines
+
+
+TRACE_UNITS = [HeaderRead, EntryRead, GetArgs, IsMatch, TSGetMessage, GetTraceString, BufferRead, FormatEntry, ParseTrace]
+UNITS = HLOG_UNITS + ILOG_UNITS + TRACE_UNITS
+
+
+def trace_grammar_bounded(tier, seed):
+    """TraceStringFile.__init__/_add_trace_string (file grammar): bounded stand-in"""
+    import random, tempfile, os, time, shutil
+    import io_drawer
+    from io_drawer.trace import TraceStringFile
+    t0 = time.time()
+    rng = random.Random(seed)
+    base = os.path.dirname(io_drawer.__file__)
+    bad = None
+    evals = 0
+    for fn, cnt in (("mexStringFile", 709), ("nimitzStringFile", 679)):
+        t = TraceStringFile(os.path.join(base, fn))
+        evals += 1
+        if len(t.trace_strings) != cnt:
+            bad = dict(case="shipped " + fn, got=len(t.trace_strings), want=cnt)
+    n = 200 if tier == 'quick' else 2000
+    d = tempfile.mkdtemp(prefix="pyvc_trace_")
+    try:
+        for k in range(n):
+            if bad:
+                break
+            want = []
+            txt = "#FSP_TRACE_v2|||date|||BUILD:Release\n"
+            for j in range(rng.randrange(0, 10)):
+                h = rng.randrange(0, 1 << 32)
+                msg = ''.join(rng.choice("abc XYZ%d%x%s:-_.,()|>") for _ in range(rng.randrange(1, 24))).strip() or "m"
+                if '||' in msg:
+                    msg = msg.replace('||', '|.')
+                loc = "file%d.cpp(%d)" % (j, rng.randrange(1, 999))
+                want.append((h, msg, loc))
+                txt += "%s%d%s||%s%s||%s\n" % (' ' * rng.randrange(0, 2), h, ' ' * rng.randrange(0, 2), ' ' * rng.randrange(0, 2),
+                                               msg, loc)
+                if rng.random() < 0.2:
+                    txt += "not a trace string line\n"
+            p = os.path.join(d, "sf")
+            with open(p, "w") as f:
+                f.write(txt)
+            got = [(s.hash_value, s.message_format, s.location) for s in TraceStringFile(p).trace_strings]
+            evals += 1
+            if got != want:
+                bad = dict(case="generated string file", text=txt, got=got[:4], want=want[:4])
+    finally:
+        shutil.rmtree(d, ignore_errors=True)
+    ob = dict(name="TraceStringFile grammar: trace strings of the file, in order (bounded)", kind='B', solver='bounded',
+              status='failed' if bad else 'discharged', evaluations=evals, secs=time.time() - t0,
+              bound="2 shipped string files (709/679 strings) + %d generated files of 0..9 strings" % n)
+    if bad:
+        ob['replay'] = dict(kind='custom', reproduced=True, native=bad, input=bad)
+        ob['detail'] = str(bad)[:500]
+    return [ob], {}
